@@ -425,7 +425,13 @@ class C17(Prop):
             return fl.get("why") == "excluded"
         return False
 
-    families = {"d7_include_list_validated_to_empty": _fam_d7.__func__,
+    @staticmethod
+    def _fam_toplevel(case, fl):
+        return (fl.get("what") == "saveframe called from the top level of a script raised" and case.get("frames") is None
+                and "NoneType" in str(fl.get("err")) and "f_locals" in str(fl.get("err")))
+
+    families = {"toplevel_call_without_frames": _fam_toplevel.__func__,
+                "d7_include_list_validated_to_empty": _fam_d7.__func__,
                 "suppressed_context_followed": _fam_suppressed.__func__,
                 "filter_names_a_nonidentifier_local": _fam_nonident.__func__}
 
@@ -523,6 +529,8 @@ class C17(Prop):
             c = self._mk(self.EX_SIMPLE, frames=s_, qseed=len(out))
             c["prog"]["entry"] = "unraised"          # an exception without traceback
             out.append(c)
+        out.append(self._mk({}, frames=None, utility="toplevel"))
+        out.append(self._mk({}, frames=2, utility="toplevel"))
         for m in (0o600, 0o666, 0o400 | 0o200, 0o755):
             out.append(self._mk(self.EX_SIMPLE, umask=0o027, preexist=m))
         return out
@@ -534,7 +542,43 @@ class C17(Prop):
         sf._SAVEFRAME_LOGGER.setLevel(logging.CRITICAL + 10)
         logging.getLogger().setLevel(logging.CRITICAL + 10)
 
+    TOPLEVEL_SCRIPT = (
+        "import sys, os, pickle\n"
+        "sys.path.insert(0, %(lib)r)\n"
+        "import logging, pyflyby\n"
+        "import pyflyby._saveframe as sf\n"
+        "sf._SAVEFRAME_LOGGER.setLevel(logging.CRITICAL + 10)\n"
+        "def inner():\n    secret = 'p@ss'\n    raise ValueError('boom')\n"
+        "def outer():\n    token = 7\n    inner()\n"
+        "try:\n    outer()\nexcept ValueError as e:\n    sys.last_exc = e\n"
+        "out = pyflyby.saveframe(filename=%(out)r%(args)s)\n"
+        "data = pickle.load(open(out, 'rb'))\n"
+        "print('KEYS', sorted(k for k in data if isinstance(k, int)), [data[k]['function_name'] for k in sorted(k for k in data if isinstance(k, int))])\n")
+
+    def _run_toplevel(self, case):
+        """saveframe called from the top level of a script (its caller has no caller), in a child interpreter."""
+        import subprocess
+        base = self._root if self._root and os.path.isdir(self._root) else None
+        root = tempfile.mkdtemp(dir=base, prefix="top_")
+        try:
+            out = os.path.join(root, "frames.pkl")
+            args = "" if case["frames"] is None else ", frames=%r" % (case["frames"],)
+            script = os.path.join(root, "top.py")
+            with open(script, "w") as fh:
+                fh.write(self.TOPLEVEL_SCRIPT % dict(lib=os.path.join(REPO, "lib", "python"), out=out, args=args))
+            p = subprocess.run([sys.executable, script], stdout=subprocess.PIPE, stderr=subprocess.PIPE, text=True, timeout=120)
+            keys = None
+            for l in p.stdout.splitlines():
+                if l.startswith("KEYS "):
+                    keys = l[5:]
+            last = [l for l in p.stderr.strip().splitlines() if l.strip()]
+            return dict(toplevel=dict(rc=p.returncode, keys=keys, err=(last[-1][:200] if last and p.returncode else None)))
+        finally:
+            shutil.rmtree(root, ignore_errors=True)
+
     def run_impl(self, case):
+        if case["utility"] == "toplevel":
+            return self._run_toplevel(case)
         import pyflyby                                    # noqa: F401  (the tree under test)
         import pyflyby._saveframe as sf
         self._quiet()
@@ -917,6 +961,15 @@ class C17(Prop):
     def oracle(self, case, obs):
         fails = []
         util = case["utility"]
+        if util == "toplevel":
+            t = obs["toplevel"]
+            want = {None: "[1] ['inner']", 1: "[1] ['inner']", 2: "[1, 2] ['inner', 'outer']"}.get(case["frames"])
+            if t["rc"] != 0:
+                return [dict(what="saveframe called from the top level of a script raised", frames_arg=case["frames"], err=t["err"])]
+            if want is not None and t["keys"] != want:
+                return [dict(what="saved frame keys differ from what the selector denotes", frames_arg=case["frames"],
+                             keys=t["keys"], want=want, utility=util)]
+            return []
         putil = "function" if util == "function" else "script"
 
         def fail(what, **kw):
@@ -1128,6 +1181,8 @@ class C17(Prop):
 
     def model_requests(self, case, obs):
         util = case["utility"]
+        if util == "toplevel":
+            return []
         table = obs.get("table") or {}
         saved = obs.get("saved") or {}
         opaque = {}
@@ -1223,12 +1278,16 @@ class C17(Prop):
 
     # -- bookkeeping -------------------------------------------------------------------------
     def nontrivial_key(self, case, obs):
+        if case["utility"] == "toplevel":
+            return None
         if obs.get("err") is None and obs.get("saved") and obs["saved"]["keys"]:
             return json.dumps([case["prog"]["files"], case["frames"], case["variables"], case["exclude_variables"],
                                case["unpick"], case["utility"]], sort_keys=True, default=str)
         return None
 
     def sample_repr(self, case, obs):
+        if case["utility"] == "toplevel":
+            return dict(frames=case["frames"], utility="toplevel", obs=obs)
         return dict(frames=case["frames"], variables=case["variables"], exclude_variables=case["exclude_variables"],
                     utility=case["utility"], umask=oct(case["umask"]),
                     stack=[[os.path.basename(f["file"]), f["line"], f["qual"]] for f in (obs.get("live") or [])],
@@ -1239,6 +1298,8 @@ class C17(Prop):
             acc[k] = acc.get(k, 0) + 1
         inc("utility_" + case["utility"])
         inc("src_" + case.get("_src", "?"))
+        if case["utility"] == "toplevel":
+            return
         fr = case["frames"]
         inc("selector_" + ("none" if fr is None else "int" if isinstance(fr, int) else "list" if isinstance(fr, list)
                            else "range" if ".." in fr else "str"))
